@@ -352,12 +352,9 @@ func ruleSumDBRaw(w *World, r *Run, rule string) {
 		r.Undecided(rule, name, "", "no success path")
 	}
 	// fetchCheckpoint closure returns LatestCheckpoint().Raw
-	if fl := w.fn(modPath + "/internal/feeder/sumdb.FeedLog"); fl != nil {
-		for _, cl := range fl.AnonFuncs {
-			if cl.Signature.Params().Len() != 1 {
-				continue
-			}
-			sums, _, ok := exploreOpaque(w, r, rule, cl.String(), 1, 1, name)
+	if ff, okf := feederFuncs(w, r, rule, "sumdb"); okf && ff.fetchCheckpoint != nil {
+		for _, cl := range []*ssa.Function{ff.fetchCheckpoint} {
+			sums, _, ok := exploreOpaque(w, r, rule, funcNameOrSSA(cl), 2, 1, name)
 			if !ok {
 				continue
 			}
@@ -377,12 +374,11 @@ func ruleSizeNarrowing(w *World, r *Run, rule string) {
 	limit := new(big.Int).Lsh(big.NewInt(1), 62)
 	n := 0
 	for _, fp := range []string{"sumdb", "pixelbt"} {
-		fl := w.fn(modPath + "/internal/feeder/" + fp + ".FeedLog")
-		if fl == nil {
-			r.Undecided(rule, fp+".FeedLog", "", "not found")
+		ff, okf := feederFuncs(w, r, rule, fp)
+		if !okf {
 			continue
 		}
-		for _, cl := range fl.AnonFuncs {
+		for _, cl := range []*ssa.Function{ff.fetchProof} {
 			sums, e, ok := exploreFn(w, r, rule, cl, 2, 1)
 			if !ok {
 				continue
@@ -713,6 +709,7 @@ func ruleSumDBConstants(w *World, r *Run) {
 		off := paramN(fn, 0)
 		good := true
 		nLoop := 0
+		baseT := mk("const", base, 0, types.Typ[types.Int])
 		for _, s := range sums {
 			for _, f := range s.Facts {
 				anySub(f.T, func(t *Term) bool {
@@ -723,20 +720,29 @@ func ruleSumDBConstants(w *World, r *Run) {
 					}
 					return false
 				})
-				if f.T.Kind == "binop" && f.T.Name == "<" && f.T.Args[0] == off && f.T.Args[1].Kind == "const" {
-					nLoop++
-					if f.T.Args[1].Name != base {
-						good = false
-					}
-				}
 			}
+			iters := 0
 			for _, sp := range calls(s, "fmt.Sprintf") {
+				if f0, _ := constInt(sp.Args[0]); strings.HasPrefix(unquote(f0), "x") {
+					iters++
+				}
 				anySub(sp.Args[1], func(t *Term) bool {
 					if t.Kind == "binop" && (t.Name == "%" || t.Name == "/") && !(t.Args[1].Kind == "const" && t.Args[1].Name == base) {
 						good = false
 					}
 					return false
 				})
+			}
+			// the carry loop runs iff the index is >= pathBase (whatever way the test is written)
+			if iters == 0 {
+				if !implies(s.Facts, "<", off, baseT, true) {
+					good = false
+				}
+			} else {
+				nLoop++
+				if !implies(s.Facts, "<", off, baseT, false) {
+					good = false
+				}
 			}
 		}
 		r.Check(good && nLoop > 0, "C18.a", pClient+".tilePath | groups of pathBase digits, looping while the remainder is >= pathBase", w.pos(fn.Pos()), "tilePath does not split the index into base-"+base+" groups with the reference loop condition")
@@ -912,21 +918,17 @@ func ruleSumDBConstants(w *World, r *Run) {
 	}
 	// ---- C18.d PROVE-ARGS
 	for _, fpn := range []string{"sumdb", "pixelbt"} {
-		fl := w.fn(modPath + "/internal/feeder/" + fpn + ".FeedLog")
-		if fl == nil {
+		ff, okf := feederFuncs(w, r, "C18.d", fpn)
+		if !okf {
 			continue
 		}
 		n := 0
-		for _, cl := range fl.AnonFuncs {
-			if cl.Signature.Params().Len() != 3 {
-				continue
-			}
+		for _, cl := range []*ssa.Function{ff.fetchProof} {
 			sums, _, ok := exploreFn(w, r, "C18.d", cl, 1, 1)
 			if !ok {
 				continue
 			}
-			from := mk("param", cl.Params[1].Name(), 0, cl.Params[1].Type())
-			to := mk("param", cl.Params[2].Name(), 0, cl.Params[2].Type())
+			from, to := ff.from, ff.to
 			fsz, tsz := mk("field", "Size", 0, tUint64, from), mk("field", "Size", 0, tUint64, to)
 			for _, s := range sums {
 				// a proof is returned without asking tlog only when the witness holds nothing (from.Size == 0)
